@@ -496,4 +496,51 @@ example : wireNames
     [.csrf (lit "aa") (lit "aa") (cookieAttrs cfgDefault), .csrf (lit "bb") (lit "bb") (cookieAttrs cfgSecond)] true =
     [lit "session", lit "_csrf_site_state", lit "_csrf_site", lit "_csrf", lit "after"] := by decide
 
+/-! ## every lookup source is parsed on its own (round 7) -/
+
+/-- the extractor a single `<source>:<name>[:<cut-prefix>]` element stands for (none for unknown words) -/
+def ownExtractor (s : Str) : Option Extractor :=
+  match parseSource s with
+  | some (some e) => some e
+  | _ => none
+
+/-- **C12_sources_independent** — `CreateExtractors` builds the extractor of every source from
+    that source's own text alone, in order: nothing (a cut-prefix, a name) is carried from one
+    element of TokenLookup to the next, so `header:A:pfx,header:B` reads header B whole and
+    `header:B,header:A:pfx` means the same two locations in the other order. -/
+theorem C12_sources_independent (ss : List Str) : ∀ es, parseSources ss = some es →
+    es = ss.filterMap ownExtractor ∧ ∀ s ∈ ss, parseSource s ≠ none := by
+  induction ss with
+  | nil => intro es h; simp [parseSources] at h; subst h; simp
+  | cons s ss ih =>
+    intro es h
+    simp only [parseSources] at h
+    cases hs : parseSource s with
+    | none => simp [hs] at h
+    | some o =>
+      simp only [hs] at h
+      cases hr : parseSources ss with
+      | none => simp [hr] at h
+      | some es' =>
+        simp only [hr, Option.some.injEq] at h
+        obtain ⟨h1, h2⟩ := ih es' hr
+        refine ⟨?_, ?_⟩
+        · cases o with
+          | none => simp [List.filterMap_cons, ownExtractor, hs, ← h, h1]
+          | some e => simp [List.filterMap_cons, ownExtractor, hs, ← h, h1]
+        · intro x hx
+          simp only [List.mem_cons] at hx
+          rcases hx with rfl | hx
+          · simp [hs]
+          · exact h2 x hx
+
+example : createExtractors (lit "header:X-Legacy-Token:csrf ,header:X-CSRF-Token") =
+    some [.header (lit "X-Legacy-Token") (lit "csrf "), .header (lit "X-Csrf-Token") []] := by decide
+example : createExtractors (lit "header:X-CSRF-Token,header:X-Legacy-Token:csrf ") =
+    some [.header (lit "X-Csrf-Token") [], .header (lit "X-Legacy-Token") (lit "csrf ")] := by decide
+
+/-- a header that merely CONTAINS the token as a list element does not hold it -/
+example : serve cfgDefault { reqOK with headers := [(lit "X-Csrf-Token", lit "zzz, tokn")] } = .rejected 403 ∧
+    serve cfgDefault { reqOK with headers := [(lit "X-Csrf-Token", lit "tokn,")] } = .rejected 403 := by decide
+
 end C12
